@@ -55,6 +55,10 @@ CHECKS = {
  'C16': dict(cat='exploration', technique='bounded-exhaustive enumeration of file splits x file endings x stems/extensions and of script option combinations; library outputs compared with each other, scripts run as subprocesses and compared byte for byte with the API, compositions compiled, linked and imported',
              text='All splits of a 4-item declaration sequence into 1..3 files x 8 file endings (no newline, line/block comment, CRLF, ...) x extensions x plain/underscore/dotted stems: the pybind main output must declare and call one initialiser per extra file in order and otherwise equal wrapping the main text; wrap_submodule must write exactly <stem>.cpp containing the initialiser definition around what wrapping the text alone yields, touching nothing else; MATLAB wrap(list) must equal wrap(single concatenated file); 108 script option combinations as real subprocesses must equal the library API byte for byte; 18 (48) main+parts compositions are compiled, linked and imported.',
              note='Mock library of C04 for the linked compositions; declarations of different files are independent.', ref='2/C16'),
+
+ 'C17': dict(cat='exploration', technique='bounded-exhaustive enumeration of documentation texts over escaping classes and of overload/XML-tree shapes; literals decoded by an independent C++ literal decoder and by g++ and compared with the extracted text',
+             text='Every documentation text of length <=2 (3) over 20 escaping-class representatives (quotes, backslash, newline, tab, %, braces, ?, DEL, U+0085, U+00AD, Latin-1, CJK, U+2028, emoji, hex-digit letters) as the docstring of its own method: the literal after the .def must be well-formed C++ and decode (own decoder and g++) to exactly the extracted text; 12 member shapes (overloads told apart by names or by order, optional parameters, brief only, undocumented, absent) x complete / index-less / missing XML trees, unindexed class, missing and ill-formed class file: each binding carries the marker of its own member and no other, missing pieces give an empty docstring and never an error; output minus literals equals output without XML; one wrapper used twice gives the same result.',
+             note='Own Doxygen XML emitter; characters XML 1.0 cannot carry are outside the alphabet.', ref='2/C17'),
 }
 NOT_YET = 'check not built yet in this session (see DESIGN.md for the planned exhaustive exploration)'
 
